@@ -332,6 +332,10 @@ func main() {
 		e2ePart(w, r)
 		return
 	}
+	if len(os.Args) > 2 && os.Args[2] == "web_idle" {
+		webIdlePart(w, r)
+		return
+	}
 	n := vc.Scale(400, 20000)
 	pert := vc.Scale(3, 5)
 	pf := grpcadapter.NewProxyForwarder(grpcadapter.ProxyForwarderOpts{})
